@@ -56,7 +56,7 @@ func errLiteral(f *ssa.Function) (ssa.Instruction, map[string]ssa.Value) {
 	}
 	for _, ci := range core.Calls(f) {
 		g := ci.Common().StaticCallee()
-		if g == nil || g == f || g.Parent() != nil || len(g.Blocks) != 1 || g.Pkg != core.Outer(f).Pkg {
+		if g == nil || g == f || g.Parent() != nil || len(g.Blocks) != 1 || core.PkgOf(g) != core.PkgOf(f) {
 			continue
 		}
 		l, fs := direct(g)
